@@ -415,6 +415,48 @@ pub fn run(data: &[u8], ctx: &mut Ctx) -> Outcome {
         typed!(@try_as ctx, el, own, f64, "f64", |v: f64| Item::F(v));
         typed!(@try_as ctx, el, own, bool, "bool", |v: bool| if v { Item::True } else { Item::False });
         typed!(@try_as ctx, el, own, dcbor::ByteString, "ByteString", |v: dcbor::ByteString| Item::B(v.to_vec()));
+        // the structural extraction types: what a wrapped / known-value / elided / assertion subject stores
+        let inner = em.subject_deep();
+        let r = nopanic!(ctx, el.extract_subject::<Envelope>(), "extract", "C15/extract/Envelope");
+        if let Ok(v) = r {
+            let ok = match inner {
+                M::Wrapped(w) => v.to_cbor_data() == w.tagged(),
+                M::Leaf(b) => v.to_cbor_data() == *b,
+                _ => false,
+            };
+            check!(ctx, ok, "extract", "C15/extract/Envelope", "extract_subject::<Envelope>() on {} returned {}, which is not the envelope stored there", inner.show(), v.format_flat());
+            ctx.class("extract-ok:Envelope");
+        }
+        let r = nopanic!(ctx, el.extract_subject::<KnownValue>(), "extract", "C15/extract/KnownValue");
+        if let Ok(v) = r {
+            let ok = match inner {
+                M::Known(n) => v.value() == *n,
+                M::Leaf(b) => v.tagged_cbor().to_cbor_data() == *b,
+                _ => false,
+            };
+            check!(ctx, ok, "extract", "C15/extract/KnownValue", "extract_subject::<KnownValue>() on {} returned '{}'", inner.show(), v.value());
+            ctx.class("extract-ok:KnownValue");
+        }
+        let r = nopanic!(ctx, el.extract_subject::<bc_components::Digest>(), "extract", "C15/extract/Digest");
+        if let Ok(v) = r {
+            let ok = match inner {
+                M::Elided(d) => d32(&v) == *d,
+                M::Leaf(b) => v.tagged_cbor().to_cbor_data() == *b,
+                _ => false,
+            };
+            check!(ctx, ok, "extract", "C15/extract/Digest", "extract_subject::<Digest>() on {} returned {}", inner.show(), hex::encode(v.data()));
+            ctx.class("extract-ok:Digest");
+        }
+        let r = nopanic!(ctx, el.extract_subject::<bc_envelope::Assertion>(), "extract", "C15/extract/Assertion");
+        if let Ok(v) = r {
+            let ok = match inner {
+                M::Assertion(..) => d32(&v.digest()) == inner.digest() && d32(&v.predicate().digest()) == inner.children()[0].digest() && d32(&v.object().digest()) == inner.children()[1].digest(),
+                M::Leaf(b) => CBOR::from(v.clone()).to_cbor_data() == *b,
+                _ => false,
+            };
+            check!(ctx, ok, "extract", "C15/extract/Assertion", "extract_subject::<Assertion>() on {} returned another assertion", inner.show());
+            ctx.class("extract-ok:Assertion");
+        }
     }
     ctx.nontrivial = depth >= 2 && interesting;
     Outcome::Pass
